@@ -56,31 +56,105 @@ def grid(rng, pool, hmax=5, wmax=5, hmin=1, wmin=1):
 # each: gen(rng) -> case (json-able dict); line(case) -> driver arguments; real(case) -> list of reply fields
 
 def gen_cpu_bin(rng):
-    k = rng.randint(1, 7)
-    kind = rng.random()
-    if kind < 0.7:
-        bins = sorted(rng.sample(range(-6, 14), k))
-    elif kind < 0.85:
-        bins = sorted(rng.choice(range(-3, 8)) for _ in range(k))          # duplicates
+    """`_cpu_bin(data, bins, new_values)`: bin lists of every kind the binary search can meet -- strictly ascending,
+    ties (runs of equal bounds), not ascending, -inf / +inf ends, NaN bounds (first / inner / last: the `bins[mid-1]`
+    read at `mid = 0` wraps around only then), one bin, long lists (17..130 bounds: many loop iterations), no bins
+    at all (only with a raster that has no finite cell -- otherwise the real code reads out of bounds); cells on
+    the bounds, just beside them, half way between, below / above all of them, NaN, +-inf, -0.0; rasters of every
+    small shape including empty ones, float32 and float64; `new_values` as long as `bins` or longer.  All numbers
+    are small dyadic fractions (exact in float32).  The driver gets `fuel = nbins + 1`: the bound of the
+    refinement theorem (Props/C12.lean: generated_cpu_bin_refines) is exercised, not a generous default."""
+    u = rng.random()
+    cls = ("asc" if u < 0.34 else "ties" if u < 0.49 else "unsorted" if u < 0.60 else "inf" if u < 0.73
+           else "nan" if u < 0.81 else "long" if u < 0.95 else "one" if u < 0.98 else "nobins")
+    den = rng.choice([1, 1, 2, 4])
+    if cls == "long":
+        k = rng.choice([17, 31, 32, 33, 64, 65, 100, 127, 130, rng.randint(17, 130)])
+        step = rng.choice([1, 1, 2, 3])
+        lo = rng.randint(-40, 5)
+        bins, x = [], lo
+        for _ in range(k):
+            bins.append(x)
+            x += rng.choice([0, step, step, step, 2 * step]) if rng.random() < 0.5 else step
+    elif cls == "one":
+        bins = [rng.randint(-4, 9)]
+    elif cls == "nobins":
+        bins = []
     else:
-        bins = [rng.choice(range(-3, 8)) for _ in range(k)]                # not ascending
-    bins = [b / rng.choice([1, 1, 2]) for b in bins]
-    pool = [NAN, INF, -INF] + [b for b in bins] * 2 + [b + 0.5 for b in bins] + [b - 0.25 for b in bins] + [-50, 50]
-    data = grid(rng, pool, 3, 4)
-    new_values = [float(rng.randint(-9, 9)) for _ in range(k)]
-    return dict(data=data.tolist(), bins=bins, new_values=new_values)
+        k = rng.choice([1, 2, 2, 3, 3, 4, 5, 6, 7, 8, 9, 12])
+        if cls == "asc":
+            bins = sorted(rng.sample(range(-8, 16), k))
+        elif cls == "ties":
+            bins = sorted(rng.choice(range(-3, 3 + max(1, k // 2))) for _ in range(k))
+        elif cls == "unsorted":
+            bins = [rng.choice(range(-3, 9)) for _ in range(k)]
+        elif cls == "inf":
+            bins = sorted(rng.sample(range(-8, 16), k))
+            w = rng.random()
+            if w < 0.45 or k == 1:
+                bins[-1] = INF
+            elif w < 0.7:
+                bins[0] = -INF
+            elif w < 0.9:
+                bins[0], bins[-1] = -INF, INF
+            else:                                  # several infinite bounds
+                bins[-1] = INF
+                bins[-2] = INF
+                if k > 2 and rng.random() < 0.5:
+                    bins[0] = -INF
+            if rng.random() < 0.1:
+                bins[rng.randrange(k)] = rng.choice([INF, -INF])     # an infinite bound out of order
+        else:                                      # nan
+            bins = sorted(rng.sample(range(-8, 16), k))
+            w = rng.random()
+            pos = 0 if w < 0.4 else (k - 1 if w < 0.65 else rng.randrange(k))
+            bins[pos] = NAN
+            if rng.random() < 0.15:
+                bins[rng.randrange(k)] = NAN
+    bins = [b / den if b == b and abs(b) != INF else b for b in bins]
+    fin = [b for b in bins if b == b and abs(b) != INF]
+    pool = [NAN, INF, -INF, -0.0, 0.0, -500.0, 500.0]
+    for b in fin:
+        pool += [b, b, b, b + 0.5 / den, b - 0.5 / den, b + 0.125, b - 0.125]
+    for a, b in zip(fin, fin[1:]):
+        pool.append((a + b) / 2)
+    if fin:
+        pool += [min(fin) - 1, max(fin) + 1, min(fin), max(fin)] * 2
+    if cls == "nobins":
+        pool = [NAN, INF, -INF]
+    if rng.random() < 0.06:
+        h, w = rng.choice([(0, 0), (0, 3), (2, 0), (0, 1), (1, 0)])
+    elif cls == "long":
+        h, w = rng.randint(1, 3), rng.randint(2, 6)
+    else:
+        h, w = rng.randint(1, 4), rng.randint(1, 5)
+    data = np.array(pick_vals(rng, pool, h * w), dtype=np.float64).reshape(h, w)
+    nv_len = len(bins) + (rng.choice([1, 2, 5]) if rng.random() < 0.12 else 0)
+    nv_pool = [float(v) for v in range(-9, 10)] + [0.5, -2.25, 100.0, 1024.0]
+    if rng.random() < 0.1:
+        nv_pool += [NAN, INF, -INF]
+    new_values = [rng.choice(nv_pool) for _ in range(nv_len)] if rng.random() < 0.5 else \
+        [float(i) for i in range(nv_len)]
+    return dict(data=data.tolist(), shape=[h, w], bins=bins, new_values=new_values, cls=cls,
+                ddt=rng.choice(["float64", "float64", "float32"]))
+
+
+def _cpu_bin_data(c):
+    shape = c.get("shape") or list(np.asarray(c["data"]).shape)
+    return np.array(c["data"], dtype=np.float64).reshape(shape)
 
 
 def line_cpu_bin(c):
-    return f"af.data={farr(c['data'])} af.bins={farr(c['bins'])} af.new_values={farr(c['new_values'])}"
+    fuel = f" fuel={len(c['bins']) + 1}" if "cls" in c else ""
+    return (f"af.data={farr(_cpu_bin_data(c))} af.bins={farr(c['bins'])} af.new_values={farr(c['new_values'])}"
+            + fuel)
 
 
 def real_cpu_bin(c):
     f = mod("xrspatial.classify")._cpu_bin
-    data = np.array(c["data"], dtype=np.float64)
+    data = _cpu_bin_data(c).astype(c.get("ddt", "float64"))
     bins = np.array(c["bins"], dtype=np.float64)
     nv = np.array(c["new_values"], dtype=np.float64)
-    d0, b0, n0 = data.copy(), bins.copy(), nv.copy()
     out = f(data, bins, nv)
     return ["ret", farr(out), farr(data), farr(bins), farr(nv)]
 
@@ -728,7 +802,8 @@ def stream(r, progs, n, driver=None):
         replies = driver.ask(lines)
         for c, rv, rep in zip(cases, reals, replies):
             key = dict(prog=prog, case=c)
-            r.case(key, desc=f"il:{prog} {str(c)[:120]}", nontrivial=True, tags=[f"il:{prog}"])
+            tags = [f"il:{prog}"] + ([f"il:{prog}:{c['cls']}"] if isinstance(c, dict) and "cls" in c else [])
+            r.case(key, desc=f"il:{prog} {str(c)[:120]}", nontrivial=True, tags=tags)
             if rv[0] == "skip":
                 continue
             if rv[0] == "err":
